@@ -35,9 +35,9 @@
     (`x.Persist` = the section implementations, etc.) is by reading.
   * `f.Sync` / `f.Close` failures cannot be injected by the harness; they are covered by the
     theorem only.  That `os.Remove` succeeds is OS behaviour.
-  * `faissVectorIndexSection.Persist` (D6) is NOT in the C17 list: on the build path the
-    section writes into a `bytes.Buffer` (interim.convert), which cannot fail; its error link is
-    C19's obligation (ZapProofs/Props/C19.lean).
+  * `faissVectorIndexSection.Persist` is in the list since D6 was fixed (its call of
+    `vo.writeVectorIndexes` is now `returned`; on the pinned tree it was `ignored` and this
+    side condition - like C19's - failed on it, see the `patch` examples below).
 -/
 import ZapModel.Gen.Facts
 import ZapModel.Theory.Str
@@ -62,6 +62,7 @@ def driverOK (fs : List ErrFact) (fn : String) (expected : List String) : Bool :
 def innerFns : List String := [
   "persistSegmentBaseToWriter", "mergeToWriter", "interim.convert",
   "invertedTextIndexSection.Persist", "synonymIndexSection.Persist",
+  "faissVectorIndexSection.Persist",
   "invertedTextIndexSection.Merge", "synonymIndexSection.Merge", "faissVectorIndexSection.Merge",
   "persistFooter", "persistFieldsSection",
   "vectorIndexOpaque.writeVectorIndexes", "vectorIndexOpaque.mergeAndWriteVectorIndexes"
@@ -80,6 +81,7 @@ def expectedInner : List (String × String) := [
   ("interim.convert", "persistFieldsSection"),
   ("invertedTextIndexSection.Persist", "invIndexOpaque.writeDicts"),
   ("synonymIndexSection.Persist", "synIndexOpaque.writeThesauri"),
+  ("faissVectorIndexSection.Persist", "vo.writeVectorIndexes"),
   ("invertedTextIndexSection.Merge", "mergeAndPersistInvertedSection"),
   ("synonymIndexSection.Merge", "mergeAndPersistSynonymSection"),
   ("faissVectorIndexSection.Merge", "vo.flushSectionMetadata"),
@@ -273,6 +275,9 @@ def patch (fn callee : String) (d : ErrDisp) : List ErrFact :=
 example : c17SideCondition (patch "PersistSegmentBase" "f.Sync" returned) = false := by
   decide +kernel
 example : c17SideCondition (patch "mergeToWriter" "x.Merge" ignored) = false := by decide +kernel
+/-- D6 as on the pinned tree. -/
+example : c17SideCondition (patch "faissVectorIndexSection.Persist" "vo.writeVectorIndexes" ignored)
+    = false := by decide +kernel
 example : c17SideCondition (patch "persistFooter" "binary.Write" sticky) = false := by
   decide +kernel
 example : c17SideCondition (patch "mergeSegmentBases" "br.Flush" ignored) = false := by
